@@ -54,3 +54,89 @@ Definition check_inplace_raises (e : src * option src * name * option name * out
   | Some b' => Bool.eqb (match raised with Some x => Pos.eqb x N_TypeError | None => false end) (negb (Nat.eqb (s_dim a) (s_dim b')))
   | None => match raised with None => true | Some _ => false end
   end.
+
+(* ---- C05: result class / flavor / dimension rules, dimension errors, operator = method ---- *)
+Definition same_dim_methods : list name :=
+  [N_add; N_op_add; N_subtract; N_op_sub; N_dot; N_op_matmul; N_equal; N_op_eq; N_not_equal; N_op_ne; N_isclose;
+   N_is_parallel; N_is_antiparallel; N_is_perpendicular].
+Definition vector_valued : list name := [N_add; N_op_add; N_subtract; N_op_sub; N_cross; N_rotate_axis; N_boost_p4; N_boost_beta3; N_boost; N_boostCM_of; N_boostCM_of_p4].
+Definition counted_second (n : name) : bool := negb (Pos.eqb n N_rotate_axis).   (* the axis of rotate_axis does not count *)
+
+(* expected outcome TYPE of a binary method on object vectors (None = no rule stated here) *)
+Definition expect_raise (a b : src) (n : name) : option bool :=
+  if mem_name n same_dim_methods then Some (negb (Nat.eqb (s_dim a) (s_dim b)))
+  else if Pos.eqb n N_cross then Some (negb (Nat.eqb (s_dim a) 3 && Nat.eqb (s_dim b) 3))
+  else if Pos.eqb n N_rotate_axis then Some (negb (Nat.leb 3 (s_dim a) && Nat.eqb (s_dim b) 3))
+  else if Pos.eqb n N_boost_p4 || Pos.eqb n N_boostCM_of_p4 then Some (negb (Nat.eqb (s_dim a) 4 && Nat.eqb (s_dim b) 4))
+  else if Pos.eqb n N_boost_beta3 then Some (negb (Nat.eqb (s_dim a) 4 && Nat.eqb (s_dim b) 3))
+  else if Pos.eqb n N_boost || Pos.eqb n N_boostCM_of then Some (negb (Nat.eqb (s_dim a) 4 && (Nat.eqb (s_dim b) 3 || Nat.eqb (s_dim b) 4)))
+  else None.
+
+Definition check_binary_type (e : src * src * name * outcome) : bool :=
+  let '(a, b, n, o) := e in
+  match expect_raise a b n with
+  | None => true
+  | Some true => match o with OutRaise x => Pos.eqb x N_TypeError || Pos.eqb x N_AttributeError | _ => false end
+  | Some false =>
+      if mem_name n vector_valued then
+        match o with
+        | OutVec c _ _ _ =>
+            (* momentum iff some COUNTED operand is momentum; dimension: cross -> 3, else the first operand's *)
+            Bool.eqb (cls_mom c) (s_mom a || (counted_second n && s_mom b)) &&
+            Nat.eqb (cls_dim c) (if Pos.eqb n N_cross then 3 else s_dim a)
+        | _ => false end
+      else match o with OutScalar _ => true | _ => false end
+  end.
+
+(* the result coordinate system (and every field expression) depends on the operands' systems only, not on their
+   flavors: within one (systems, method) group all flavor combinations agree up to the class flavor, which is
+   momentum iff a counted operand is *)
+Definition unmom (s : src) : src := {| s_dim := s_dim s; s_sys := s_sys s; s_mom := false |}.
+Definition check_flavor_group (g : name * list (bool * bool * outcome)) : bool :=
+  let '(n, items) := g in
+  match items with
+  | [] => true
+  | (_, _, o0) :: _ =>
+      forallb (fun it => let '(ma, mb, o) := it in
+                 outcome_eqb (strip o) (strip o0) &&
+                 match o with OutVec c _ _ _ => Bool.eqb (cls_mom c) (ma || (counted_second n && mb)) | _ => true end) items
+  end.
+
+Fixpoint swap01 (e : oexpr) : oexpr :=
+  match e with
+  | OVar 0 i => OVar 1 i | OVar 1 i => OVar 0 i
+  | OCall f xs => OCall f (map swap01 xs) | OOp f xs => OOp f (map swap01 xs) | OProj i x => OProj i (swap01 x) | _ => e end.
+Definition swap_out (o : outcome) : outcome := match o with OutScalar e => OutScalar (swap01 e) | _ => o end.
+
+(* an operator gives the same value and type as the method it stands for *)
+Definition op_method : list (name * name) := [(N_op_add, N_add); (N_op_sub, N_subtract); (N_op_matmul, N_dot); (N_op_eq, N_equal); (N_op_ne, N_not_equal)].
+Definition check_operator_pair (e : name * outcome * option outcome * option outcome) : bool :=
+  let '(n, o, m, refl) := e in
+  opt_outcome_eqb (Some o) m ||
+  (* Python evaluates a == b as b.__eq__(a) when type(b) is a subclass of type(a): the reflected call b.equal(a);
+     equal / not_equal are symmetric (C12), so this is the same value *)
+  ((Pos.eqb n N_op_eq || Pos.eqb n N_op_ne) && opt_outcome_eqb (Some (swap_out o)) refl).
+Definition norm_of (d : nat) : name := match d with 2 => N_rho_m | 3 => N_mag_m | _ => N_tau_m end.
+Definition norm2_of (d : nat) : name := match d with 2 => N_rho2_m | 3 => N_mag2_m | _ => N_tau2_m end.
+Definition check_operator_unary (e : src * name * outcome) : bool :=
+  let '(s, n, o) := e in
+  let same_as m := opt_outcome_eqb (Some o) (lookup_out unary_tab s m) in
+  if Pos.eqb n N_neg then same_as N_scale_m1
+  else if Pos.eqb n N_mul || Pos.eqb n N_rmul then same_as N_scale
+  else if Pos.eqb n N_div then same_as N_scale_inv
+  else if Pos.eqb n N_abs then same_as (norm_of (s_dim s))
+  else if Pos.eqb n N_pow2 then same_as (norm2_of (s_dim s))
+  else if Pos.eqb n N_pos then outcome_eqb o (OutVec (gen_cls (s_dim s) (s_mom s)) (s_sys s) (stored 0 s) false)
+  else true.
+(* unary methods: class keeps flavor; dimension: to_beta3 -> 3, else kept; methods of a higher dimension raise *)
+Definition check_unary_type (e : src * name * outcome) : bool :=
+  let '(s, n, o) := e in
+  match o with
+  | OutVec c _ _ _ => Bool.eqb (cls_mom c) (s_mom s) && Nat.eqb (cls_dim c) (if Pos.eqb n N_to_beta3 then 3 else s_dim s)
+  | _ => true end.
+(* rotate_nautical(yaw, pitch, roll) = rotate_euler(roll, pitch, yaw, "zyx"); order is case-insensitive; default order zxz *)
+Definition check_rotation_spellings (e : src * name * outcome) : bool :=
+  let '(s, n, o) := e in
+  let same_as m := opt_outcome_eqb (Some o) (lookup_out unary_tab s m) in
+  if Pos.eqb n N_rotate_nautical || Pos.eqb n N_rotate_euler then same_as N_rotate_euler_zyx
+  else if Pos.eqb n N_rotate_euler_default then same_as N_rotate_euler_zxz else true.
